@@ -8,8 +8,16 @@ args = sys.argv[1:]
 jobs = 4
 if "-j" in args:
     jobs = int(args[args.index("-j") + 1]); del args[args.index("-j"):args.index("-j") + 2]
+tier = "quick"
+if "--tier" in args:
+    tier = args[args.index("--tier") + 1]; del args[args.index("--tier"):args.index("--tier") + 2]
+only_props = None
+if "--props" in args:
+    only_props = args[args.index("--props") + 1].split(","); del args[args.index("--props"):args.index("--props") + 2]
 ids = args or sorted(x for x in os.listdir(os.path.join(VERIF, "harmless")) if os.path.isdir(os.path.join(VERIF, "harmless", x)))
 PROPS = [c["property_id"] for c in json.load(open(os.path.join(VERIF, "MANIFEST.json")))["checks"]]
+if only_props:
+    PROPS = [p for p in PROPS if p in only_props]
 
 
 def run(hid):
@@ -23,7 +31,7 @@ def run(hid):
         out = {"applies": True, "checks": {}}
         for c in PROPS:
             env = dict(os.environ, VERIF_REPO=m, VERIF_JOBS="4")
-            r = subprocess.run(["./check", c], cwd=VERIF, capture_output=True, text=True, env=env)
+            r = subprocess.run(["./check", c, "--tier", tier], cwd=VERIF, capture_output=True, text=True, env=env)
             if r.returncode != 0:
                 obl = re.findall(r"failed obligation: (.*?)  \(replay", r.stdout)
                 und = re.findall(r"UNDECIDED property=\S+ (?:unit=)?(.*)", r.stdout)
@@ -36,7 +44,7 @@ def run(hid):
         shutil.rmtree(os.path.join(VERIF, "build", "alt_" + hashlib.sha1(m.encode()).hexdigest()[:8]), ignore_errors=True)
 
 
-path = os.path.join(VERIF, "harmless", "MATRIX.json")
+path = os.path.join(VERIF, "harmless", "MATRIX.json" if tier == "quick" else f"MATRIX_{tier}.json")
 res = json.load(open(path)) if os.path.exists(path) and args else {}
 with cf.ThreadPoolExecutor(max_workers=jobs) as ex:
     for hid, out in ex.map(run, ids):
